@@ -245,7 +245,17 @@ def split_stateful(repo, uni, stateful):
     for key, (ci, why) in stateful.items():
         sites = instantiation_sites(repo, uni, ci)
         bad = [s for s in sites if s[2] != 'evaluation']
-        if sites and not bad:
+        outer = model.enclosing(ci.node, (ast.FunctionDef,
+                                          ast.AsyncFunctionDef))
+        born_in_call = False
+        if outer is not None:
+            for cand in ci.module.functions.values():
+                if cand.node is outer and (not hasattr(uni, 'role') or
+                                           uni.role(cand) not in (
+                        'construction', 'register', 'hostapi', 'cli')):
+                    born_in_call = True   # the class object itself is
+                    #                       created per call
+        if (sites or born_in_call) and not bad:
             local[key] = (ci, why, sites)
         else:
             shared[key] = (ci, why, sites)
